@@ -1,0 +1,153 @@
+//go:build verif
+
+// Contracts for package dt, read by /verif/govc (comments only).
+package dt
+
+// ---------------------------------------------------------------------------
+// List: circular doubly linked list around a root sentinel.
+// Ghost view: l.elems = the members front to back (root excluded);
+// e.idx = position of a member in its list's view.
+// ---------------------------------------------------------------------------
+
+//@ ghost List.elems seq
+//@ ghost Element.idx int
+
+// wf(l): well-formedness of an initialised list. Forward links, backward
+// links, ownership, Len and the view all describe the same sequence.
+//@ pred wf(l *List) = l != nil && l.root != nil && allocated(l.root) && l.root.list == l && !l.root.ok
+//@ |  && len(l.elems) >= 0 && l.length == len(l.elems)
+//@ |  && (len(l.elems) == 0 ==> l.root.next == l.root && l.root.prev == l.root)
+//@ |  && (len(l.elems) > 0 ==> l.root.next == l.elems[0] && l.root.prev == l.elems[len(l.elems) - 1] && cast(l.elems[0], "*Element").prev == l.root && cast(l.elems[len(l.elems) - 1], "*Element").next == l.root)
+//@ |  && (forall i: int :: 0 <= i && i < len(l.elems) ==> allocated(l.elems[i]) && l.elems[i] != l.root && cast(l.elems[i], "*Element").list == l && cast(l.elems[i], "*Element").ok && cast(l.elems[i], "*Element").idx == i)
+//@ |  && (forall i: int :: 0 <= i && i < len(l.elems) ==> cast(l.elems[i], "*Element").next != nil && cast(l.elems[i], "*Element").prev != nil)
+//@ |  && (forall i: int :: 0 <= i && i < len(l.elems) - 1 ==> cast(l.elems[i], "*Element").next == l.elems[i + 1])
+//@ |  && (forall i: int :: 1 <= i && i < len(l.elems) ==> cast(l.elems[i], "*Element").prev == l.elems[i - 1])
+//@ |  && (forall e: Element :: e.list == l && e != l.root ==> 0 <= e.idx && e.idx < len(l.elems) && l.elems[e.idx] == e)
+
+// member(l, e): e is an attached, non-root element of l
+//@ pred member(l *List, e *Element) = e != nil && e != l.root && e.list == l
+// pos(l, e): index after which an element appended to e lands
+//@ pred pos(l *List, e *Element) int = e == l.root ? 0 : e.idx + 1
+
+//@ func (*Element).uncheckedAppend
+//@   props C16
+//@   requires e != nil && e.list != nil && wf(e.list) && new != nil && allocated(new) && new.list == nil && new != e.list.root && new.ok
+//@   modifies e.list.length, new.list, new.prev, new.next, e.next, e.next.prev, e.list.elems, Element.idx
+//@   ghostset e.list.elems = insert(old(e.list.elems), pos(e.list, e), new)
+//@   ghostall Element.idx(x) = x == new ? pos(e.list, e) : (x.list == e.list && x != e.list.root && x.idx >= pos(e.list, e) ? x.idx + 1 : x.idx)
+//@   ensures wf(e.list) && new.list == e.list
+//@   ensures e.list.elems == insert(old(e.list.elems), old(pos(e.list, e)), new)
+
+//@ func (*Element).uncheckedRemove
+//@   props C16
+//@   requires e != nil && e.list != nil && wf(e.list) && member(e.list, e)
+//@   modifies e.list.length, e.list, e.prev.next, e.next.prev, e.list.elems, Element.idx
+//@   ghostset old(e.list).elems = remove(old(e.list.elems), old(e.idx))
+//@   ghostall Element.idx(x) = old(x.list) == old(e.list) && x != old(e.list.root) && old(x.idx) > old(e.idx) ? old(x.idx) - 1 : old(x.idx)
+//@   ensures e.list == nil && wf(old(e.list))
+//@   ensures old(e.list).elems == remove(old(e.list.elems), old(e.idx))
+
+// An uninitialised list (zero value): no root yet, nothing points to it.
+//@ pred uninit(l *List) = l.root == nil && l.length == 0 && len(l.elems) == 0 && (forall e: Element :: e.list != l)
+//@ pred lwf(l *List) = l != nil && (l.root == nil ? uninit(l) : wf(l))
+
+//@ func (*List).lazySetup
+//@   props C16
+//@   requires l == nil || lwf(l)
+//@   panics when l == nil
+//@   modifies l.root
+//@   ensures wf(l) && l.elems == old(l.elems) && (old(l.root) != nil ==> l.root == old(l.root))
+
+//@ func (*List).Len
+//@   props C16
+//@   requires lwf(l)
+//@   ensures result == len(l.elems)
+
+// pop: removing the root, a detached element or an element of another list is
+// rejected (a fresh, not-ok element is returned and nothing changes).
+//@ func (*List).pop
+//@   props C16
+//@   requires wf(l) && it != nil && allocated(it) && (it.list != nil ==> wf(it.list))
+//@   modifies l.length, it.list, it.prev.next, it.next.prev, l.elems, Element.idx
+//@   ensures wf(l)
+//@   ensures removed: old(member(l, it)) ==> result == it && it.list == nil && l.elems == remove(old(l.elems), old(it.idx))
+//@   ensures rejected: !old(member(l, it)) ==> fresh(result) && !result.ok && result.list == nil && l.elems == old(l.elems) && it.list == old(it.list)
+
+//@ func (*List).PopFront
+//@   props C16
+//@   requires l == nil || lwf(l)
+//@   panics when l == nil
+//@   modifies l.root, l.length, Element.list, Element.next, Element.prev, l.elems, Element.idx
+//@   ensures wf(l)
+//@   ensures nonempty: len(old(l.elems)) > 0 ==> result == old(l.elems[0]) && result.list == nil && l.elems == old(l.elems)[1:]
+//@   ensures empty: len(old(l.elems)) == 0 ==> fresh(result) && !result.ok && len(l.elems) == 0
+
+//@ func (*List).PopBack
+//@   props C16
+//@   requires l == nil || lwf(l)
+//@   panics when l == nil
+//@   modifies l.root, l.length, Element.list, Element.next, Element.prev, l.elems, Element.idx
+//@   ensures wf(l)
+//@   ensures nonempty: len(old(l.elems)) > 0 ==> result == old(l.elems[len(l.elems) - 1]) && result.list == nil && l.elems == old(l.elems)[:len(old(l.elems)) - 1]
+//@   ensures empty: len(old(l.elems)) == 0 ==> fresh(result) && !result.ok && len(l.elems) == 0
+
+//@ func (*List).Front
+//@   props C16
+//@   requires l == nil || lwf(l)
+//@   panics when l == nil
+//@   modifies l.root
+//@   ensures wf(l) && l.elems == old(l.elems) && result == (len(l.elems) > 0 ? l.elems[0] : l.root)
+
+//@ func (*List).Back
+//@   props C16
+//@   requires l == nil || lwf(l)
+//@   panics when l == nil
+//@   modifies l.root
+//@   ensures wf(l) && l.elems == old(l.elems) && result == (len(l.elems) > 0 ? l.elems[len(l.elems) - 1] : l.root)
+
+// Element.Append: "appending an element that already belongs to a list" (or a
+// nil / not-ok element, or appending to a detached element) is rejected:
+// the receiver is returned and nothing changes.
+//@ pred anchored(e *Element) = e.list != nil ==> wf(e.list) && (e == e.list.root || member(e.list, e))
+//@ func (*Element).Append
+//@   props C16
+//@   requires e != nil && allocated(e) && anchored(e) && (new != nil ==> allocated(new) && new != e && (new.list != nil ==> wf(new.list)))
+//@   modifies e.list.length, new.list, new.prev, new.next, e.next, e.next.prev, e.list.elems, Element.idx
+//@   ensures rejected: (new == nil || !old(new.ok) || old(e.list) == nil || old(new.list) != nil) ==> result == e && (old(e.list) != nil ==> e.list.elems == old(e.list.elems) && wf(e.list)) && (new != nil ==> new.list == old(new.list) && new.next == old(new.next) && new.prev == old(new.prev))
+//@   ensures accepted: !(new == nil || !old(new.ok) || old(e.list) == nil || old(new.list) != nil) ==> result == new && wf(e.list) && new.list == e.list && e.list.elems == insert(old(e.list.elems), old(pos(e.list, e)), new)
+
+//@ func (*List).PushBack
+//@   props C16
+//@   requires l == nil || lwf(l)
+//@   panics when l == nil
+//@   modifies l.root, l.length, Element.list, Element.next, Element.prev, l.elems, Element.idx
+//@   ensures wf(l) && len(l.elems) == len(old(l.elems)) + 1 && l.elems[:len(old(l.elems))] == old(l.elems)
+//@   ensures cast(l.elems[len(l.elems) - 1], "*Element").item == it && fresh(l.elems[len(l.elems) - 1])
+
+//@ func (*List).PushFront
+//@   props C16
+//@   requires l == nil || lwf(l)
+//@   panics when l == nil
+//@   modifies l.root, l.length, Element.list, Element.next, Element.prev, l.elems, Element.idx
+//@   ensures wf(l) && len(l.elems) == len(old(l.elems)) + 1 && l.elems[1:] == old(l.elems)
+//@   ensures cast(l.elems[0], "*Element").item == it && fresh(l.elems[0])
+
+// Element.Remove: the root, nil-list (detached) elements are rejected.
+//@ func (*Element).Remove
+//@   props C16
+//@   requires e != nil && allocated(e) && anchored(e)
+//@   modifies e.list.length, e.list, e.prev.next, e.next.prev, e.list.elems, Element.idx
+//@   ensures removed: old(e.list) != nil && old(e.list.root) != e ==> result == true && e.list == nil && wf(old(e.list)) && old(e.list).elems == remove(old(e.list.elems), old(e.idx))
+//@   ensures rejected: !(old(e.list) != nil && old(e.list.root) != e) ==> result == false && e.list == old(e.list) && (e.list != nil ==> wf(e.list) && e.list.elems == old(e.list.elems))
+
+//@ func (*Element).In
+//@   props C16
+//@   requires e != nil
+//@   ensures result == (e.list != nil && e.list == l)
+
+//@ func (*Element).Set
+//@   props C16
+//@   requires e == nil || (allocated(e) && (e.list != nil ==> e.list.root != nil))
+//@   modifies e.ok, e.item
+//@   ensures rejected: (e == nil || (old(e.list) != nil && old(e.list.root) == e)) ==> result == false
+//@   ensures accepted: !(e == nil || (old(e.list) != nil && old(e.list.root) == e)) ==> result == true && e.ok && e.item == v
